@@ -713,6 +713,7 @@ func (e *Enc) fireAt(kind, name string, before bool, pos token.Pos, st *State, e
 		if aa.Ord != 0 && aa.Ord != e.ords[cntKey] {
 			continue
 		}
+		e.ords[fmt.Sprintf("aa-matched:%d", i)]++
 		// a clause that cannot be evaluated at THIS site (e.g. it names a variable that is not in
 		// scope at a newly added call the selector also matches) fails as its own obligation
 		// instead of discarding every obligation of the function
@@ -780,6 +781,7 @@ func (e *Enc) fireAt(kind, name string, before bool, pos token.Pos, st *State, e
 		if ga.Ord != 0 && ga.Ord != e.ords[cntKey] {
 			continue
 		}
+		e.ords[fmt.Sprintf("ga-matched:%d", i)]++
 		v := e.evalSpec(ga.C.E, mkctx())
 		if strings.ContainsAny(ga.Var, ".[") {
 			// ghost field / ghost array element of an object: x.ghost_f := e, x.ghost_a[i] := e
@@ -1138,6 +1140,38 @@ func (e *Enc) checkPost() {
 // coverQueries: vacuity guards. The entry assumptions must be satisfiable and at
 // least one return must be reachable.
 func (e *Enc) coverQueries() {
+	// every assert-at / ghost-at clause must have matched at least one site of the function as it
+	// is now: a clause whose site was deleted (or whose ordinal no longer exists) would otherwise
+	// pass silently. Reported as an obligation of its own that cannot be discharged.
+	if e.ctr != nil {
+		for i := range e.ctr.AssertAts {
+			aa := &e.ctr.AssertAts[i]
+			if aa.Assume || e.ords[fmt.Sprintf("aa-matched:%d", i)] > 0 {
+				continue
+			}
+			if strings.TrimSpace(aa.C.Src) == "false" {
+				continue // a prohibition ("this is never called here"): no site is what it asks for
+			}
+			sel := aa.SelKind + " " + aa.Callee
+			if aa.Ord != 0 {
+				sel += fmt.Sprintf(" #%d", aa.Ord)
+			}
+			e.obls = append(e.obls, &Obligation{Name: ShortKey(e.key) + "#" + fmt.Sprintf("assert.%d@nosite", i+1), Fn: e.key, Kind: "assert",
+				Prefix: 0, Goal: "true", PC: "true", Expect: "unsat", Desc: "assert-at " + strings.TrimSpace(sel) + ": the selector matches no site in the function (the site it was written for is gone): " + aa.C.Src, enc: e})
+		}
+		for i := range e.ctr.GhostAts {
+			ga := &e.ctr.GhostAts[i]
+			if ga.SelKind == "entry" || e.ords[fmt.Sprintf("ga-matched:%d", i)] > 0 {
+				continue
+			}
+			sel := ga.SelKind + " " + ga.Callee
+			if ga.Ord != 0 {
+				sel += fmt.Sprintf(" #%d", ga.Ord)
+			}
+			e.obls = append(e.obls, &Obligation{Name: ShortKey(e.key) + "#" + fmt.Sprintf("ghost.%d@nosite", i+1), Fn: e.key, Kind: "assert",
+				Prefix: 0, Goal: "true", PC: "true", Expect: "unsat", Desc: "ghost-at " + strings.TrimSpace(sel) + ": the selector matches no site in the function (the site it was written for is gone): " + ga.Var + " := " + ga.C.Src, enc: e})
+		}
+	}
 	var pcs []string
 	for _, rp := range e.retVals {
 		pcs = append(pcs, rp.pc)
